@@ -322,3 +322,70 @@ def c05(prop, tier, seed):
     R.assumptions = ["no mutation behind a live iterator except through it (precondition)", "ASan/UBSan + allocator ledger attached",
                      "adversarial keys are searched with a copy of the public hash function (coverage aid only)"]
     return R.finish()
+
+
+# ------------------------------------------------------------------------------------------
+# C06 - thread pool
+
+_PCW = {"none": "-", "lock": "L", "condwait": "W", "sleeping": "S", "woken": "R", "unlock_run": "U", "taskbegin": "B",
+        "taskend": "E", "exit_bcast": "C", "exit_unlock": "U", "exited": "X"}
+_PCS = {"idle": "-", "lock": "L", "create": "T", "signal": "G", "unlock": "U", "done": "X"}
+_PCM = {"create": "T", "start": "s", "joinsubs": "j", "f_lock": "L", "f_bcast": "C", "f_unlock": "U", "f_join": "J",
+        "f_lock2": "L", "f_wait": "W", "f_sleeping": "S", "f_woken": "R", "f_unlock2": "U", "f_cdestroy": "c",
+        "f_mdestroy": "m", "returned": "X"}
+
+
+def _seq(v):
+    """TLC prints functions over 1..n as tuples, other functions as (k :> v @@ ...)."""
+    if isinstance(v, list):
+        return v
+    if isinstance(v, dict) and "__fn__" in v:
+        d = v["__fn__"]
+        return [d[k] for k in sorted(d)]
+    return [v]
+
+
+def thpool_canon(st):
+    parts = [str(st["lock"]), "M" + _PCM[st["pcM"]]]
+    parts += ["S" + _PCS[x] for x in _seq(st["pcS"])]
+    parts += ["W" + _PCW[x] for x in _seq(st["pcW"])]
+    parts.append("".join({"new": "q", "queued": "q", "discarded": "q", "running": "r", "done": "d"}[x] for x in _seq(st["task"])))
+    parts.append("1" if st["freed"] else "0")
+    return "-", "|".join(parts)
+
+
+THPOOL_SIZES = {"1x2": (1, "2"), "2x2": (2, "2"), "2x11": (2, "1,1"), "2x21": (2, "2,1"), "3x3": (3, "3")}
+
+
+@check("C06")
+def c06(prop, tier, seed):
+    R = Result(prop, tier, seed)
+    exe = vplib.build("drv_thpool", ["utils", "structs", "thpool"], ["drv_thpool.c"],
+                      per_file_flags={"Lib/thpool/thpool.c": ["-include", os.path.join(vplib.HARN, "vp_sched.h")]})
+    quick = tier == "quick"
+    flavours = [l + d + w for l in "le" for d in "dj" for w in "ac"]
+    sizes = ["2x2", "2x21"] if quick else ["1x2", "2x2", "2x11", "2x21", "3x3"]
+    budget = 1500 if quick else 60000
+    walks = 300 if quick else 20000
+    tasks = []
+    for fl in flavours:
+        for sz in sizes:
+            tag = "Thpool_%s_%s" % (fl, sz)
+            n, subs = THPOOL_SIZES[sz]
+            env = {"VP_N": str(n), "VP_SUBS": subs, "VP_LAZY": "1" if fl[0] == "l" else "0",
+                   "VP_DETACHED": "1" if fl[1] == "d" else "0", "VP_WAITALL": "1" if fl[2] == "a" else "0",
+                   "GW_COVER_TAIL": "6"}
+            tasks.append(lambda tag=tag, env=env: e1e2(R, "ThpoolMC.tla", tag + ".cfg", tag, thpool_canon, exe, env, 400, budget,
+                                                       walks, 60, seed, workers=2))
+            if not quick or sz == "2x21":
+                tasks.append(lambda tag=tag: tlc_only(R, "ThpoolMC.tla", tag + "_live.cfg", tag + "_live", workers=2))
+    vplib.parallel(tasks, max_workers=8)
+    R.rule = ("programs = complete schedules (paths from the initial to a terminal state) of the dumped TLC graph of Thpool.tla at "
+              "pthread-operation granularity, executed on the real thpool.c under a cooperative scheduler: depth-first enumeration "
+              "(budget %d per config), an edge cover (every transition, incl. every spurious wake-up and every signal target) and %d "
+              "random schedules, for 8 flavours (lazy/eager x detached/joinable x wait-all/current) x %d (threads, tasks, submitters) "
+              "sizes; non-trivial = a worker slept in cond_wait and was woken (signal, broadcast or spuriously)" % (budget, walks, len(sizes)))
+    R.assumptions = ["handle not used concurrently with its own destruction (documented precondition: free after all submitters returned)",
+                     "pthread primitives behave as specified (virtualised by the scheduler); memory-level races are observed by TSan only in the real-thread stress",
+                     "ASan/UBSan + allocator ledger attached to every schedule"]
+    return R.finish()
